@@ -26,6 +26,8 @@ import dns.rdatatype
 import dns.rrset
 import dns.serial
 import dns.transaction
+import dns.tsig
+import dns.tsigkeyring
 import dns.versioned
 import dns.xfr
 import dns.zone
@@ -151,6 +153,10 @@ def dump_zone(z, rel):
 
 
 def build_wire(w):
+    return build_msg(w).to_wire(max_size=65535)
+
+
+def build_msg(w):
     rc, qs, recs = w
     m = dns.message.Message(id=4711)
     m.flags = dns.flags.QR | dns.flags.AA
@@ -164,7 +170,7 @@ def build_wire(w):
         rs.add(mk_rdata(c, t, cv, d, False))
         rs.ttl = ttl
         m.answer.append(rs)
-    return m.to_wire(max_size=65535)
+    return m
 
 
 _wire_cache = {}
@@ -181,7 +187,10 @@ def wire_of(w):
     return r
 
 
+TSIG_KEYRING = dns.tsigkeyring.from_text({"xfr-key.": "NjHwPsMKjdN++dOfE5iAiQ=="})
+
 FORM_TEXT = {
+    "missing TSIG": 23,
     "wrong question name": 10,
     "wrong question rdatatype": 11,
     "No answer or RRset not for zone origin": 12,
@@ -565,6 +574,58 @@ def run_legacy(case):
     return dump_zone(z, rel)
 
 
+class SigningTCP:
+    """a server end that TSIG-signs the scripted messages (RFC 8945 multi-message rules) once it has seen
+    the query's MAC; signed[i] says whether message i carries a TSIG"""
+
+    def __init__(self, msgs, signed):
+        self.msgs, self.signed = msgs, signed
+        self.buf, self.pos, self.q = b"", 0, b""
+
+    def send(self, data):
+        self.q += data
+        if len(self.q) >= 2 and len(self.q) >= 2 + struct.unpack("!H", self.q[:2])[0]:
+            q = dns.message.from_wire(self.q[2:], keyring=TSIG_KEYRING)
+            ctx, first, out = None, True, b""
+            for w, sg in zip(self.msgs, self.signed):
+                m = build_msg(w)
+                m.id = q.id
+                if sg:
+                    m.use_tsig(TSIG_KEYRING)
+                    if first:
+                        m.request_mac = q.mac
+                    wire = m.to_wire(multi=True, tsig_ctx=ctx) if ctx is not None else m.to_wire(multi=True)
+                    ctx = m.tsig_ctx
+                else:
+                    wire = m.to_wire()
+                    if ctx is not None:
+                        ctx.update(wire)
+                first = False
+                out += struct.pack("!H", len(wire)) + wire
+            self.buf = out
+        return len(data)
+
+    def recv(self, n):
+        d = self.buf[self.pos:self.pos + n]
+        self.pos += len(d)
+        return d
+
+
+def run_tsig(case):
+    _, zk, rel, rdt, ser, z0, msgs, signed = case[:8]
+    z = build_zone(zk % 3, rel, z0)
+    q = dns.message.make_query(ORIGIN, rdt)
+    q.use_tsig(TSIG_KEYRING)
+    code = 0
+    try:
+        for _ in dns.query._inbound_xfr(z, SigningTCP(msgs, signed), q, ser, None, None):
+            pass
+    except Exception as e:  # noqa
+        c = exc_code(e)
+        code = c.code if c.code < 900 else 899
+    return [code, dump_checked(z, rel)]
+
+
 def run_make_query(case):
     _, zs, ser = case
     z = dns.versioned.Zone(ORIGIN)
@@ -622,6 +683,8 @@ def impl(case):
             return run_top(case)
         if op == 9:
             return run_legacy(case)
+        if op == 11:
+            return run_tsig(case)
         if op == 10:
             q = dns.message.make_query(ORIGIN, case[1])
             if case[2] is not None:
@@ -1396,8 +1459,34 @@ def legacy_cases(ctx, rng, n):
         yield "legacy-xfr", [9, rng.randrange(2), msgs, zdump(z)]
 
 
+def tsig_cases(ctx, rng, n):
+    """TSIG-signed transfers (oracle only): every message signed; only some signed (first and last always);
+    the last message unsigned (RFC 8945 5.3.1: must be rejected)"""
+    for _ in range(n):
+        zk, rel = rng.randrange(3), rng.randrange(2)
+        chain = gen_chain(rng, rng.choice([1, 2]), size=rng.choice([1, 3]))
+        s0 = soa_id(chain[0]) & 0xFFFFFFFF
+        if rng.random() < 0.6:
+            rdt, ser, recs = IXFR, s0, ixfr_stream(rng, chain)
+        else:
+            rdt, ser, recs = AXFR, None, axfr_stream(rng, chain[-1])
+        chunks = split(recs, sorted(set(rand_cuts(rng, len(recs)))))
+        msgs = msgs_of(chunks, rdt)
+        k = len(msgs)
+        r = rng.random()
+        if r < 0.4:
+            signed, kind, tag = [1] * k, "tsig-all-signed", VALID
+        elif r < 0.7 or k < 2:
+            signed = [1] + [rng.randrange(2) for _ in range(k - 2)] + ([1] if k > 1 else [])
+            kind, tag = "tsig-some-signed", VALID
+        else:
+            signed = [1] + [rng.randrange(2) for _ in range(k - 2)] + [0]
+            kind, tag = "tsig-last-unsigned", MUSTERR
+        yield kind, [11, zk, rel, rdt, ser, zdump(chain[0]), msgs, signed, [tag, zdump(chain[-1])]]
+
+
 def in_model(kind, case):
-    return case[0] != 9
+    return case[0] not in (9, 11)
 
 
 def misc_cases(ctx, rng):
@@ -1442,6 +1531,7 @@ def cases(ctx):
     yield from malformed_cases(ctx, rng, ctx.n(300, 4500))
     yield from feed_cases(ctx, rng, ctx.n(200, 2000))
     yield from refresh_cases(ctx, rng, ctx.n(200, 2500))
+    yield from tsig_cases(ctx, rng, ctx.n(60, 600))
     if get_server() is not None:
         yield from top_cases(ctx, rng, ctx.n(120, 800))
         yield from legacy_cases(ctx, rng, ctx.n(60, 500))
@@ -1460,7 +1550,7 @@ def oracle(ctx, kind, case, out):
 
     op = case[0]
     if isinstance(out, Err):
-        if op in (1, 2, 6, 8, 9) or out.code >= 900:
+        if op in (1, 2, 6, 8, 9, 11) or out.code >= 900:
             fail("unexpected exception " + out.text)
         return F
     if op == 4:
@@ -1508,6 +1598,17 @@ def oracle(ctx, kind, case, out):
             prev = target
         if len(out) != len(case[6]) and not F:
             fail("refresh sequence stopped early", sig="refresh-short")
+        return F
+    if op == 11:
+        code, dump = out
+        z0 = case[5]
+        tag, target = case[8]
+        if code != 0 and dump != z0:
+            fail("an error was reported but the zone is not what it was before the transfer", sig="error-after-apply")
+        if tag == VALID and (code != 0 or dump != target):
+            fail("a correctly signed transfer was rejected or did not converge", sig="tsig-valid-rejected")
+        if tag == MUSTERR and code == 0:
+            fail("a transfer whose last message is unsigned was accepted", sig="tsig-accepted")
         return F
     if op == 9:
         if out != case[3]:
